@@ -382,17 +382,17 @@ def make_setup_b(cfg: dict[str, Any]):
         def main() -> None:
             try:
                 T._serve_socket_threaded(server, sock, cfg.get("max_conn"), cfg["idle"], FakeTransport, "vf")  # type: ignore[arg-type]
+            except S.Abort:
+                raise  # execution torn down by the scheduler: not a return
             except BaseException as e:
-                if isinstance(e, S.Abort):
-                    raise
                 w.exc = e
+                w.closed = True
                 raise
-            finally:
-                if not w.exit_seen:
-                    w.note_cond()
-                    w.exit_seen = True
-                w.returned = True
-                w.closed = True  # serve_unix/serve_tcp close the listening socket next
+            if not w.exit_seen:
+                w.note_cond()
+                w.exit_seen = True
+            w.returned = True
+            w.closed = True  # serve_unix/serve_tcp close the listening socket next
 
         s.spawn(main, "accept-loop")
 
